@@ -12,6 +12,7 @@ pub fn judge(scn: &Scenario, p: &Plan, l: &RunLog) -> Vec<oracles::Finding> {
     if p.is_empty() {
         v.extend(oracles::promptness(scn, l));
     }
+    v.extend(oracles::fin_emitted(scn, l));
     v.extend(oracles::no_panic_no_bug(l));
     v
 }
@@ -25,11 +26,11 @@ pub fn run(ctx: &Ctx) -> Outcome {
             continue;
         }
         let dev = match ctx.tier {
-            Tier::Quick => if i < 2 { 2 } else { 1 },
-            Tier::Thorough => if i < 3 { 3 } else { 2 },
+            Tier::Quick => if i < 1 { 3 } else { 2 },
+            Tier::Thorough => if i < 2 { 4 } else { 3 },
         };
         // deviations start after the handshake (SYN = #0, SYN-ACK = #1): "on an established connection"
-        let cfg = ExploreCfg { max_dev: dev, min_k: 2, fates: fates_basic(), eligible: &always, judge: &judge, max_runs: ctx.tier.pick(6_000, 600_000) };
+        let cfg = ExploreCfg { max_dev: dev, min_k: 2, fates: fates_basic(), eligible: &always, judge: &judge, max_runs: ctx.tier.pick(400_000, 8_000_000) };
         let r = explore(ctx, scn, &cfg);
         let mut p = Part::fe(&format!("duo:{}", scn.name));
         p.evaluations = r.runs;
